@@ -14,14 +14,43 @@ KLASS['on_exception'] = 3
 KLASS['finalize_event'] = 4
 
 
+class Labels(list):
+    """label list; `race` = a task was cancelled while one of its callbacks had raised and its `_trigger` had not
+    yet taken notice: asyncio's internal order then decides whether the exception or the CancelledError arrives
+    (both happen); such traces are judged by the Python monitors only"""
+    race = False
+
+
 def labels(case, log):
     """-> list of label tuples (kind, …) in the order of the log"""
-    out = []
+    out = Labels()
     i = 0
     n = len(log)
+    # A raising callback fails its event when the event's task resumes, which is not observable; the
+    # `fail` label is therefore placed at the event's next own step (stage entry / evend).  If the task
+    # is cancelled before it resumes, asyncio throws CancelledError instead of the pending exception:
+    # the failure never reaches `_trigger` and is not a model step.
+    pending = {}            # tag -> chain in which it is being processed
+    chain_of = {}
+    cancelled_chains = set()
     while i < n:
         it = log[i]
         k = it[0]
+        if k == 'evstart':
+            chain_of[it[1]] = it[3]
+        if k in ('stage', 'evend') and it[1] in pending:
+            del pending[it[1]]
+            out.append(('fail', it[1]))
+            if chain_of.get(it[1]) in cancelled_chains:
+                # an exception (of a handler, or of a nested call) reaches an event of an already cancelled
+                # task: whether it replaces the pending CancelledError is again asyncio's business
+                out.race = True
+        if k == 'cancel':
+            cancelled_chains.add(it[1])
+        if k == 'cancel':
+            for tg in [tg for tg in pending if chain_of.get(tg) == it[1]]:
+                del pending[tg]
+                out.race = True
         if k == 'begin':
             out.append(('begin', it[1], it[2], it[3]))
         elif k == 'evstart':
@@ -37,6 +66,13 @@ def labels(case, log):
             j = i + 1
             while j < n and log[j][0] == 'cancel':
                 cs.append(log[j][1])
+                if log[j][1] in cancelled_chains:
+                    # cancelled again, possibly before the first CancelledError was delivered (one arrives)
+                    out.race = True
+                cancelled_chains.add(log[j][1])
+                for tg in [tg for tg in pending if chain_of.get(tg) == log[j][1]]:
+                    del pending[tg]
+                    out.race = True
                 j += 1
             out.append(('decide', it[1] if it[1] is not None else 10 ** 6, cs))
             i = j - 1
@@ -46,7 +82,7 @@ def labels(case, log):
         elif k == 'set':
             out.append(('set', it[1] if it[1] is not None else 10 ** 6, STATE_CODE.get(it[3], 99)))
         elif k == 'cbend' and it[4] == 'raise':
-            out.append(('fail', it[1]))
+            pending[it[1]] = True
         elif k == 'ret':
             out.append(('ret', it[1], 1 if it[2] else 0))
         elif k == 'raised':
